@@ -21,7 +21,9 @@ ThoroughSlices == <<
      [s \in {"api", "db", "web"} |-> IF s = "db" THEN NoneAll ELSE {{"command", "args", "env"}}],
      [s \in {"api", "db", "web"} |-> IF s = "web" THEN {"two"} ELSE IF s = "db" THEN {"local", "none"} ELSE {"udp"}],
      {1}, [c \in {"large", "small"} |-> IF c = "large" THEN {QLarge} ELSE {QSmall}]),
-  UnitsSlice(CpusThorough) >>
+  UnitsSlice(CpusThorough,
+             UNION {MemForms, DecForms("G", 0..17), DecForms("M", 1..2000), DecForms("k", 1040..2040)},
+             UNION {StorageForms, DecForms("G", 0..1100), DecForms("M", 4..2000), DecForms("T", {0, 1})}) >>
 
 
 ASSUME ExportDocs(Slices)
